@@ -33,6 +33,23 @@ the model's `inReadTx = true` -/
 theorem dump_runs_in_read_tx :
     RqModel.Gen.Backup.dumpBeginsReadTx = some true ∧ RqModel.Gen.Backup.dumpEndsTx = some true := by decide
 
+/-- ... and EVERY read of `Dump` goes through the one connection that transaction was begun
+on: the receiver is used, in source order, to take that connection from the read pool and
+then only as `db.queryWithConn(…, conn)` (table list, columns of a table, rows of a table,
+indexes/triggers/views); it is never handed to a helper. A query through any other method
+(`QueryStringStmt`, `roDB.QueryContext`, …) would run on another pooled connection, outside
+the transaction, and see a later state than the tables and rows already dumped. -/
+theorem dump_reads_only_through_its_connection :
+    RqModel.Gen.Backup.dumpReceiverUses =
+      ["db.roDB.Conn/context.Background()", "db.queryWithConn/conn", "db.queryWithConn/conn",
+       "db.queryWithConn/conn", "db.queryWithConn/conn"] := by decide
+
+/-- each of those four queries has its result's `Error` tested, with a `return` when it is
+set: a query SQLite rejects (carried in the result, not in `err`) makes `Dump` fail instead
+of silently omitting what it was to read -/
+theorem dump_fails_when_a_query_fails :
+    RqModel.Gen.Backup.dumpResultErrorChecks = some 4 := by decide
+
 /-- store/store.go `Backup` opens and copies the main file only after taking the gate as
 "backup" (released by defer); every checkpoint in the store package is either inside
 `fsmSnapshot` after it took the gate as "snapshot", or in `recoverNode` (offline, before the
